@@ -1,6 +1,7 @@
 package checks
 
 import (
+	"crypto/sha1"
 	"encoding/json"
 
 	ds "github.com/ipfs/go-datastore"
@@ -15,3 +16,10 @@ func countJSONArray(b []byte) int {
 	}
 	return len(arr)
 }
+
+func sha(b []byte) []byte {
+	h := sha1sum(b)
+	return h[:6]
+}
+
+func sha1sum(b []byte) [20]byte { return sha1.Sum(b) }
